@@ -12,7 +12,9 @@ import time
 
 VERIF = os.path.dirname(os.path.dirname(os.path.abspath(__file__)))
 REPO = os.environ.get('VERIF_REPO', '/repo')
-CACHE = os.path.join(VERIF, '.cache')
+# the cache of dumps and binaries (per tree hash); tools that run several trees in parallel give each
+# worker its own (VERIF_CACHE_DIR) so that their cargo builds do not queue on one lock
+CACHE = os.environ.get('VERIF_CACHE_DIR') or os.path.join(VERIF, '.cache')
 SCRATCH_BASE = os.environ.get('VERIF_SCRATCH', '/var/tmp')
 
 ENV = dict(os.environ)
